@@ -23,6 +23,10 @@ static bool run_transfer(C &cz, const Csr<double> &A, Csr<double> &P, Csr<double
     } catch (const amgcl::error::empty_level &) { return false; }
 }
 
+// symmetric value families for the row-sum clauses: mmat, mmat-int, ddom-sym, ddom-sym-int and (three times) sym-mixed-zero:
+// symmetric, mixed-sign off-diagonals, exactly zero row sums (dyadic values) -> F-rows whose positive couplings have no strong C-neighbour
+static const unsigned SYM_FAMILIES = (1u << 0) | (1u << 1) | (1u << 6) | (1u << 7) | (1u << 8) | (1u << 9) | (1u << 10);
+
 static bool dyadic_eps(float e) { return e == 0.5f || e == 0.25f || e == 0.125f; }
 
 static Csr<double> negated(const Csr<double> &A) { Csr<double> B = A; for (auto &v : B.val) v = -v; return B; }
@@ -212,11 +216,19 @@ static void lifting_checks(Ctx &c, const Csr<double> &A, const cm::MatInfo &info
         co::aggregation<Backend>::params pa; pa.aggr.eps_strong = eps;
         co::aggregation<Backend> ca(pa); Csr<double> Pt, Rt;
         VF_REQUIRE(run_transfer(ca, A, Pt, Rt), "harness: tentative prolongation unexpectedly empty");
-        EminModel em = emin_model(A, ag.strong, Pt);
-        if (em.degenerate) { c.label("lift:emin-degenerate-skipped"); return; } // zero filtered diagonal / vanishing denominator: formula undefined
+        EminModel em = emin_model(A, ag.strong, Pt, info.integer); // exactness of the values (integer / dyadic), not of the strength threshold
         C c1(p1), cb(pb); Csr<double> P, R, Pb, Rb;
         bool ok1 = run_transfer(c1, A, P, R), okb = run_transfer(cb, K, Pb, Rb);
         VF_REQUIRE(ok1 && okb, "smoothed_aggr_emin lifting: empty level although aggregates exist");
+        // a vanishing filtered diagonal / omega denominator must never produce inf/NaN (fixed in /repo by a58f297)
+        for (const Csr<double> *X : {&P, &R, &Pb, &Rb}) for (double v : X->val) VF_REQUIRE(std::isfinite(v), "smoothed_aggr_emin: non-finite value " << v << " in a transfer operator");
+        if (em.unmodelled) {
+            // a filtered diagonal or a denominator of omega_c is rounding noise: the two evaluations are only comparable when they sum in the same order
+            c.label("lift:emin-rounding-model-skipped");
+            if (c.threads == 1) { require_lifted_bitwise(Pb, P, b, keep_zeros, "smoothed_aggr_emin (1 thread) P(A (x) I_b)"); require_lifted_bitwise(Rb, R, b, keep_zeros, "smoothed_aggr_emin (1 thread) R(A (x) I_b)"); }
+            return;
+        }
+        if (em.guarded) c.label("lift:emin-guarded-zero-diagonal-or-denominator");
         ld w1 = require_lifted_within(Pb, P, b, em.tolP, "smoothed_aggr_emin P(A (x) I_b)");
         ld w2 = require_lifted_within(Rb, R, b, em.tolR, "smoothed_aggr_emin R(A (x) I_b)");
         c.label("lift:smoothed_aggr_emin");
@@ -301,7 +313,7 @@ static void prop_sa(Tape &t, Ctx &c) {
     int k = rowsum_focus || t.chance(1, 2) ? 0 : static_cast<int>(t.u(1, 3));
     int nmax = b == 1 ? size_class(t, 8, 40, 300) : size_class(t, 5, 20, 80);
     cm::MatInfo info;
-    Csr<double> A = rowsum_focus ? cm::gen_matrix(t, nmax, info, (1u << 0) | (1u << 1) | (1u << 6) | (1u << 7), false) : cm::gen_matrix(t, nmax, info);
+    Csr<double> A = rowsum_focus ? cm::gen_matrix(t, nmax, info, SYM_FAMILIES, false) : cm::gen_matrix(t, nmax, info);
     std::string form; bool intblock;
     Csr<double> K = gen_block_form(t, A, b, form, intblock);
     float eps = cm::gen_eps_strong(t);
@@ -333,6 +345,7 @@ static RsStats rs_checks(Ctx &c, const Csr<double> &A, float eps, bool do_trunc,
     VF_REQUIRE(P.m < A.n || A.n <= 1 || !any_neg, "ruge_stuben: " << P.m << " coarse variables for " << A.n << " fine ones although strong connections exist");
     RsStats rs = check_rs_rowsum(A, P, do_trunc, eps, eps_trunc, "ruge_stuben");
     if (rs.rowsum_rows) c.label("rs:rowsum-checked");
+    if (rs.mixed_rows) c.label("rs:rowsum-row-with-positive-coupling");
     if (rs.boundary_rows) c.label("rs:trunc-boundary-candidate");
     if (rs.empty_rows) c.label("rs:empty-interpolation-row");
     if (P.nnz() > P.n) c.label("rs:row-with->=2-weights");
@@ -346,8 +359,8 @@ static float gen_eps_trunc(Tape &t) {
 static void prop_rs(Tape &t, Ctx &c) {
     int nmax = size_class(t, 8, 40, 300);
     cm::MatInfo info;
-    // symmetric families only (property domain): mmat, mmat-int, ddom-sym, ddom-sym-int
-    Csr<double> A = cm::gen_matrix(t, nmax, info, (1u << 0) | (1u << 1) | (1u << 6) | (1u << 7), false);
+    // symmetric families only (property domain)
+    Csr<double> A = cm::gen_matrix(t, nmax, info, SYM_FAMILIES, false);
     float eps = t.b() ? 0.25f : cm::gen_eps_strong(t);
     bool do_trunc = !t.chance(1, 4);
     float eps_trunc = gen_eps_trunc(t);
@@ -372,17 +385,19 @@ static Csr<double> small_matrix(int n, int kind, uint32_t mask, int vclass) {
         for (int i = 0; i < n; ++i) for (int j = 0; j < n; ++j) { if (i == j) continue; if (mask >> bit & 1) rows[i][j] = w(std::min(i, j), std::max(i, j)) + (i > j ? (i + j) % 2 : 0); ++bit; }
     }
     for (int i = 0; i < n; ++i) {
-        double sabs = 0;
+        double sabs = 0, ssum = 0;
         for (auto &kv : rows[i]) {
             double v = kv.second; int j = static_cast<int>(kv.first);
             switch (vclass) {
             case 0: case 3: v = -v; break;                       // M-matrix signs
             case 1: v = ((i + j) & 1) ? -v : v; break;           // mixed signs (symmetric rule)
+            case 4: v = ((i + j) % 3 == 0) ? 0.25 * v : -v; break; // mixed signs, small positive couplings (symmetric rule), zero row sums
             default: break;                                      // all positive
             }
-            kv.second = v; sabs += std::abs(v);
+            kv.second = v; sabs += std::abs(v); ssum += v;
         }
-        rows[i][i] = vclass == 3 ? (sabs > 0 ? sabs : 1.0) : sabs + 1.0; // class 3: zero row sums
+        if (vclass == 4) rows[i][i] = ssum < 0 ? -ssum : sabs + 1.0;  // class 4: zero row sums wherever the negative mass dominates (dyadic, exact)
+        else rows[i][i] = vclass == 3 ? (sabs > 0 ? sabs : 1.0) : sabs + 1.0; // class 3: zero row sums
     }
     return cm::rows_to_csr(rows);
 }
@@ -392,11 +407,11 @@ static void prop_small(Tape &t, Ctx &c) {
     int kind = static_cast<int>(t.u(0, 1));
     int bits = kind == 0 ? n * (n - 1) / 2 : n * (n - 1);
     uint32_t mask = static_cast<uint32_t>(t.u(0, (int64_t(1) << bits) - 1));
-    int vclass = static_cast<int>(t.u(0, 3));
+    int vclass = static_cast<int>(t.u(0, 4));
     float eps = t.u(0, 1) == 0 ? 0.08f : 0.5f;
     Csr<double> A = small_matrix(n, kind, mask, vclass);
     cm::MatInfo info; info.integer = true; info.family = "small"; info.value_symmetric = cm::is_value_symmetric(A); info.struct_symmetric = cm::is_struct_symmetric(A);
-    static const char *vn[] = {"M-matrix", "mixed-sign", "all-positive", "zero-row-sum"};
+    static const char *vn[] = {"M-matrix", "mixed-sign", "all-positive", "zero-row-sum", "mixed-sign-zero-row-sum"};
     c.desc << "small n=" << n << (kind ? " arbitrary" : " symmetric") << " pattern mask=" << mask << " values=" << vn[vclass] << " eps_strong=" << cm::fmt_float(eps) << " A=" << dump_small(A, 8);
     c.label(std::string("val:") + vn[vclass]); c.label(kind ? "pattern:arbitrary" : "pattern:symmetric"); c.label("n=" + std::to_string(n));
     if (!info.struct_symmetric) c.label("nonsym-pattern");
@@ -464,14 +479,14 @@ static std::vector<Prop> props() {
 static std::vector<Enum> enums() {
     Enum e;
     e.name = "small_all_patterns"; e.prop = "small";
-    e.scope_quick = "all symmetric patterns on 1..5 nodes and all (structurally non-symmetric included) patterns on 1..3 nodes x 4 value classes {M-matrix, mixed sign, all-positive off-diagonals, zero row sums} x eps_strong {0.08, 0.5}";
-    e.scope_thorough = "all symmetric patterns on 1..6 nodes and all patterns on 1..4 nodes x 4 value classes x eps_strong {0.08, 0.5}";
+    e.scope_quick = "all symmetric patterns on 1..5 nodes and all (structurally non-symmetric included) patterns on 1..3 nodes x 5 value classes {M-matrix, mixed sign, all-positive off-diagonals, zero row sums (M-matrix signs), zero row sums with mixed signs} x eps_strong {0.08, 0.5}";
+    e.scope_thorough = "all symmetric patterns on 1..6 nodes and all patterns on 1..4 nodes x 5 value classes x eps_strong {0.08, 0.5}";
     e.gen = [](const std::string &tier, const Emit &emit) {
         int ns = tier == "thorough" ? 6 : 5, na = tier == "thorough" ? 4 : 3;
         for (int n = 1; n <= 6; ++n) for (int kind = 0; kind < 2; ++kind) {
             if (n > (kind ? na : ns)) continue;
             int bits = kind == 0 ? n * (n - 1) / 2 : n * (n - 1);
-            for (uint32_t mask = 0; mask < (1u << bits); ++mask) for (uint32_t v = 0; v < 4; ++v) for (uint32_t e2 = 0; e2 < 2; ++e2)
+            for (uint32_t mask = 0; mask < (1u << bits); ++mask) for (uint32_t v = 0; v < 5; ++v) for (uint32_t e2 = 0; e2 < 2; ++e2)
                 emit({static_cast<uint32_t>(n - 1), static_cast<uint32_t>(kind), mask, v, e2});
         }
     };
